@@ -184,7 +184,11 @@ def run(ctx):
         ctx.sample = w.describe()
         if r.ok:
             n_ops = 1 + H.draw(10 if ctx.tier == "quick" else 30)
-            for _ in range(n_ops):
+            redeclare_at = H.draw(n_ops) if H.draw(4) == 3 else -1
+            for step_i in range(n_ops):
+                if step_i == redeclare_at:
+                    w.op_redeclare()
+                    ctx.sample = w.describe()
                 res = w.random_op()
                 if res.foreign:
                     ctx.stat("foreign_failure:exception")
